@@ -1,59 +1,119 @@
 #!/venv/bin/python
-"""Re-run the property check on every filed seeded change (applied to /repo, then undone) and refresh meta.json."""
-import glob, json, os, subprocess, sys
+"""Re-run the property check on every filed seeded change and refresh meta.json.
 
-def sh(cmd, cwd=None):
-    p = subprocess.run(cmd, shell=True, cwd=cwd, capture_output=True, text=True, timeout=1200)
+usage: recheck_seeded.py [name prefixes ...] [--jobs N]
+  --jobs 1 (default): each patch is applied to /repo itself, checked, and undone (git checkout -- .)
+  --jobs N          : N scratch worktrees of /repo under /tmp/recheck_wt (removed afterwards) are used in parallel, the
+                      check reading the worktree through VERIF_REPO; evidence files are regenerated on /repo at the end.
+"""
+import glob, json, os, re, subprocess, sys
+from concurrent.futures import ThreadPoolExecutor
+import queue
+
+FILEPROPS = {'cacheutils': ['C02', 'C03', 'C20'], 'dictutils': ['C01', 'C17'], 'urlutils': ['C01', 'C06', 'C07'],
+             'iterutils': ['C08', 'C09', 'C15'], 'strutils': ['C14', 'C19'], 'fileutils': ['C04', 'C05'],
+             'jsonutils': ['C19'], 'queueutils': ['C10'], 'listutils': ['C10'], 'setutils': ['C11'],
+             'socketutils': ['C12'], 'tbutils': ['C16'], 'ioutils': ['C18']}
+
+
+def sh(cmd, cwd=None, env=None):
+    e = dict(os.environ)
+    if env:
+        e.update(env)
+    p = subprocess.run(cmd, shell=True, cwd=cwd, capture_output=True, text=True, timeout=2400, env=e)
     return p.returncode, p.stdout + p.stderr
 
-only = sys.argv[1:]
+
+args = sys.argv[1:]
+jobs = 1
+if '--jobs' in args:
+    i = args.index('--jobs')
+    jobs = int(args[i + 1])
+    del args[i:i + 2]
+only = args
 rc, o = sh('git -C /repo status --porcelain')
 assert not o.strip(), '/repo not clean'
+roots = queue.Queue()
+wts = []
+if jobs == 1:
+    roots.put('/repo')
+else:
+    os.makedirs('/tmp/recheck_wt', exist_ok=True)
+    for i in range(jobs):
+        wt = '/tmp/recheck_wt/%d' % i
+        sh('git -C /repo worktree remove --force %s' % wt)
+        rc, o = sh('git -C /repo worktree add --detach %s HEAD' % wt)
+        assert rc == 0, o
+        wts.append(wt)
+        roots.put(wt)
 touched = set()
 bad = []
-for d in sorted(glob.glob('/verif/seeded/*/')):
+import threading
+_plocks = {}
+_pl = threading.Lock()
+
+
+def checked(prop, env):
+    # one run of a property's check at a time: the check rewrites that property's evidence and replay files
+    with _pl:
+        lk = _plocks.setdefault(prop, threading.Lock())
+    with lk:
+        return sh('/venv/bin/python /verif/check %s --tier quick' % prop, cwd='/verif', env=env)
+
+
+def one(d):
     name = os.path.basename(d.rstrip('/'))
-    if only and not any(name.startswith(x) for x in only):
-        continue
     meta = json.load(open(d + 'meta.json'))
     prop = meta['property']
-    rc, o = sh('git -C /repo apply %spatch.diff' % d)
-    if rc != 0:
-        print(name, 'PATCH DOES NOT APPLY', o[:100])
-        bad.append(name)
-        continue
-    FILEPROPS = {'cacheutils': ['C02', 'C03', 'C20'], 'dictutils': ['C01', 'C17'], 'urlutils': ['C01', 'C06', 'C07'],
-                 'iterutils': ['C08', 'C09', 'C15'], 'strutils': ['C14', 'C19'], 'fileutils': ['C04', 'C05'],
-                 'jsonutils': ['C19'], 'queueutils': ['C10'], 'listutils': ['C10'], 'setutils': ['C11'],
-                 'socketutils': ['C12'], 'tbutils': ['C16'], 'ioutils': ['C18']}
+    root = roots.get()
     others = []
-    if meta.get('kind') == 'refactoring':
-        import re
-        for f in re.findall(r'^\+\+\+ b/boltons/(\w+)\.py', open(d + 'patch.diff').read(), re.M):
-            others += [x for x in FILEPROPS.get(f, []) if x != prop]
     try:
-        rc, o = sh('/venv/bin/python /verif/check %s --tier quick' % prop, cwd='/verif')
-        for x in sorted(set(others)):
-            rc2, o2 = sh('/venv/bin/python /verif/check %s --tier quick' % x, cwd='/verif')
-            touched.add(x)
-            if rc2 != 0:
-                rc = rc or rc2
-                o += '\n[also %s] ' % x + o2
+        rc, o = sh('git -C %s apply %spatch.diff' % (root, d))
+        if rc != 0:
+            return name, 'PATCH DOES NOT APPLY ' + o[:100], True, set()
+        if meta.get('kind') == 'refactoring':
+            for f in re.findall(r'^\+\+\+ b/boltons/(\w+)\.py', open(d + 'patch.diff').read(), re.M):
+                others += [x for x in FILEPROPS.get(f, []) if x != prop]
+        env = {'VERIF_REPO': root}
+        try:
+            rc, o = checked(prop, env)
+            for x in sorted(set(others)):
+                rc2, o2 = checked(x, env)
+                if rc2 != 0:
+                    rc = rc or rc2
+                    o += '\n[also %s] ' % x + o2
+        finally:
+            sh('git -C %s checkout -- .' % root)
     finally:
-        sh('git -C /repo checkout -- .')
-    touched.add(prop)
+        roots.put(root)
     lines = [l for l in o.splitlines() if l.startswith(('VIOLATION', '  rule', 'ANALYSIS-ERROR'))]
     meta['checks'] = {prop: {'exit': rc, 'report': lines[:6]}}
+    is_bad = False
     if meta.get('kind') == 'refactoring':
         meta['silent'] = rc == 0
         verdict = 'SILENT' if rc == 0 else 'NOISY exit=%d %s' % (rc, lines[:2])
-        if rc != 0:
-            bad.append(name)
+        is_bad = rc != 0
     else:
         meta['detected'] = rc == 1
         verdict = 'DETECTED' if rc == 1 else 'missed exit=%d' % rc
     json.dump(meta, open(d + 'meta.json', 'w'), indent=1)
-    print(name, verdict)
+    return name, verdict, is_bad, set([prop] + others)
+
+
+dirs = [d for d in sorted(glob.glob('/verif/seeded/*/')) if os.path.exists(d + 'meta.json') and
+        (not only or any(os.path.basename(d.rstrip('/')).startswith(x) for x in only))]
+try:
+    with ThreadPoolExecutor(jobs) as ex:
+        for name, verdict, is_bad, props in ex.map(one, dirs):
+            print(name, verdict, flush=True)
+            touched |= props
+            if is_bad:
+                bad.append(name)
+finally:
+    for wt in wts:
+        sh('git -C /repo worktree remove --force %s' % wt)
+    if wts:
+        sh('git -C /repo worktree prune')
 for p in sorted(touched):
     sh('/venv/bin/python /verif/check %s --tier quick' % p, cwd='/verif')
 print('needs attention:', bad)
